@@ -485,7 +485,7 @@ theorem generated_structure :
     genOutOrder = [.circuit, .exit, .relay] ∧ genInOrder = [.exit, .circuit] ∧
     genEncryptOutermostIsFirstHop = true ∧ genDecryptStartsAtFirstHop = true ∧
     genEncryptSkipsPlaintext = true ∧ genDecryptSkipsPlaintext = true ∧
-    genCellMsgId = 0 ∧ genNoCryptoIds = [2, 3] ∧
+    genCellMsgId = 0 ∧ genNoCryptoIds = [2, 3] ∧ genKdfUsesWholeSecret = true ∧
     (∀ i ∈ [1, 6, 7, 19, 20], i ∉ genBaseExitIds ∧ i ∉ genHiddenExitIds) := by decide
 
 /-- the generated directions: forward traffic is made and removed with the FORWARD keys, return traffic with the BACKWARD keys, the
@@ -495,5 +495,23 @@ theorem generated_directions :
     genDirRdvDec = .fwd ∧ genDirRdvEnc = .bwd ∧ genRelayOp .fwd = .dec ∧ genRelayOp .bwd = .enc ∧
     genDirOutHs .rpDownloader = genDirInHs .rpSeeder ∧ genDirOutHs .rpSeeder = genDirInHs .rpDownloader ∧
     genDirOutHs .rpDownloader ≠ genDirInHs .rpDownloader ∧ genDirOutHs .rpSeeder ≠ genDirInHs .rpSeeder := by decide
+
+/-- **A packet of an anonymized overlay never leaves the node in clear**, whether or not a tunnel community is attached, whether or
+    not a circuit is ready: it is sent into a circuit, queued, or not sent at all — never handed to the node's own socket.
+    (The first test of `TunnelEndpoint.send` is generated from the source.) -/
+theorem anonymized_never_direct (s : TEp) (attached ready : Bool) (x : Nat × Nat) :
+    (s.sendAny true attached ready x).direct = s.direct := by
+  unfold TEp.sendAny
+  have h : genTepDirect true attached = false := by cases attached <;> simp
+  rw [h]
+  cases attached <;> cases ready <;> simp [TEp.send]
+
+example : ((({} : TEp).sendAny true false false (1, 10)).direct = []) := by decide
+
+/-- **A CREATE naming a circuit id that this node already uses is refused** — for an own circuit in ANY state (being built, ready,
+    closing: membership in the table is what counts), a relay entry or an exit socket.  (Guard generated from `on_create`.) -/
+theorem create_under_known_id_refused (c r x : Bool) :
+    genCreateInUse true r x = true ∧ genCreateInUse c true x = true ∧ genCreateInUse c r true = true := by
+  cases c <;> cases r <;> cases x <;> simp
 
 end Ipv8.C04
